@@ -189,8 +189,16 @@ def abort_case(case):
     except KeyboardInterrupt:
       raised = 'KeyboardInterrupt'
     log.append(('execute-returned', s.k))
+    incomplete = []
+    if cbs:
+      rec = cbs[0]
+      if rec.outcome is None or rec.end_time_millis is None or not rec.start_time_millis or rec.dut_id is None:
+        incomplete.append('record: outcome=%r start=%r end=%r dut_id=%r' % (rec.outcome, rec.start_time_millis, rec.end_time_millis, rec.dut_id))
+      for p in rec.phases:
+        if p.outcome is None or p.result is None or p.options is None or p.end_time_millis is None:
+          incomplete.append('phase %s: outcome=%r result=%r options=%s end=%r' % (p.name, p.outcome, p.result, 'set' if p.options is not None else None, p.end_time_millis))
     return {'ret': ret, 'raised': raised, 'log': log, 'outcome': cbs[0].outcome.name if cbs else None, 'n_cb': len(cbs),
-            'records': [(p.name, p.outcome.name) for p in cbs[0].phases] if cbs else []}
+            'records': [(p.name, p.outcome.name) for p in cbs[0].phases] if cbs else [], 'incomplete': incomplete}
 
   return fn
 
@@ -288,6 +296,10 @@ def check(case):
       r.bad('C04/outcome-%s-after-abort' % res['outcome'], '%s plan=%r: abort returned before plug tearDown but outcome is %s; log=%r' % (tag, case.get('plan'), res['outcome'], log))
   if exits and res['outcome'] == 'PASS' and plug_td and exits[0] < plug_td[0] and any(e[0] == 'start' for e in log[:enters[0]]):
     r.bad('C04/pass-after-abort', '%s plan=%r log=%r' % (tag, case.get('plan'), log))
+  # the record handed to the callbacks is complete and final (C09's predicate, here under every abort moment)
+  for item in res.get('incomplete', []):
+    r.bad('C04/incomplete-record/%s' % ('phase-record' if item.startswith('phase') else 'test-record'), '%s plan=%r: %s' % (tag, case.get('plan'), item))
+    break
   if res['ret'] is True and res['outcome'] != 'PASS':
     r.bad('C04/return-value', 'execute() returned True with outcome %s' % res['outcome'])
   # O6 overlap of killable bodies
